@@ -856,8 +856,9 @@ def main(ctx):
         'harness glue: decoding of the int-array polyhedron format, float -> exact rational '
         '(float.as_integer_ratio), grouping by elem_conv, classification of the run regime '
         '(exact rational dihedral cosines)',
-        'remove_edges / remove_vertices_2 / merge_vertices / reindex / recalc_node_pos and the k-NN '
-        'construction of the conversion matrices are NOT modelled: they are covered only by the '
+        'the drivers remove_edges (which edges are tried, angle test) / remove_vertices_2 / merge_vertices / '
+        'shrink and the k-NN construction of the conversion matrices are NOT modelled (the per-cell step '
+        'remove_one_edge, reindex and recalc_node_pos are): they are covered only by the '
         'verified-oracle TEST on whole runs (closed_b, uses_exactly_b, exact volume evaluated in Coq '
         'on the actual output)',
     ]
@@ -893,7 +894,8 @@ def main(ctx):
                       ', '.join(bad), found_input=False, signature={'check': 'proof', 'bad': bad})
     ctx.notes['labels'] = {
         'proof': 'C20_merge_* / C20_mean_* / C20_sum_* / C20_*_b_iff (Coq, all inputs)',
-        'correspondence': 'merge_polyhedrons and merge_elements vs Model.merge; transfer results vs '
+        'correspondence': 'merge_polyhedrons and merge_elements vs Model.merge; reindex/recalc_node_pos vs '
+                          'ModelReindex; remove_one_edge_from_polyhedron vs ModelEdge (exact); transfer results vs '
                           'Model.mean_tr / sum_tr / sum_tr_broadcast (evaluated in Coq)',
         'test_with_verified_oracle': 'whole compress runs: closed_b, uses_exactly_b, conn_ok_b, volQ '
                                      'evaluated in Coq on the actual output (not a proof)'}
